@@ -90,7 +90,7 @@ def model(name, params):
 def gen_cases(tier, seed):
     q = tier == 'quick'
     out = []
-    n = 1200 if q else 100000
+    n = 4000 if q else 100000
     for k in range(n):
         cs = case_seed(seed, PID, k)
         r = random.Random(cs)
